@@ -309,4 +309,110 @@ theorem semaphore_sequence_balanced (p : Nat) (hp : 1 ≤ p) (rs : List (Bool ×
 
 example : semRun 3 [(true, false, true), (true, false, false), (true, true, true), (false, false, false)] = some 3 := by decide
 
+
+/-! Phase 4 -/
+
+/-! #### the DiskCacher write as several steps inside the scheduled system
+
+`DSt` = lock-protocol state + files.  On its turn a caller takes its next protocol step (`DAct.base`) or, while it is the
+writer of an entry, writes one more chunk / closes the file (`DAct.chunk b`, `DAct.close`): open-truncate (`ccreate`, the file
+exists and is zero-length), chunk, …, close, return (`cpop`) are separate steps of the schedule and every other caller can run
+between any two of them.  `enc v` = the chunks of value `v` (arbitrary). -/
+
+/-- every schedule of the file-level system is a schedule of the lock protocol: all theorems above (mutual exclusion,
+single flight, lock release, deadlock freedom, …) hold with the write split into open / chunks / close -/
+theorem chunked_write_projects {enc : Nat → List Nat} {idx : Nat → Nat} {progs : List (List (List Instr))} {s : DSt}
+    (h : DReachable enc idx progs s) : Reachable idx progs s.base := dreachable_base h
+
+/-- files and cache agree in every reachable state: the file of a cached entry is closed and holds all chunks of the value;
+a key that is neither cached nor being written has no file (a failed write leaves nothing behind) -/
+theorem chunked_files_consistent {enc : Nat → List Nat} {idx : Nat → Nat} {progs : List (List (List Instr))} {s : DSt}
+    (h : DReachable enc idx progs s) (k : Nat) :
+    (∀ v, s.base.cache k = some v → s.file k = .closed (enc v)) ∧
+    (s.base.cache k = none → partialWriter s.base k = false → s.file k = .absent) := dinv_reachable h k
+
+/-- under ConcurrentCacher no reader observes a partial entry, for every schedule of protocol steps, chunk writes and
+closes: whenever a caller opens (`cget`) or receives (`enter`) an entry, its file is closed and complete — not zero-length,
+not half-written —, nobody is writing it, and what `DiskCacher.get_set(key, None)` finds on disk is the complete content -/
+theorem chunked_no_partial_read {enc : Nat → List Nat} {idx : Nat → Nat} {progs : List (List (List Instr))}
+    {s s' : DSt} {j : Nat} {ev : Ev} {obs : Option DiskRead} {k v : Nat}
+    (h : DReachable enc idx progs s) (hs : dstep enc idx s j .base = some (.base ev obs, s'))
+    (hev : ev = .cget k v ∨ ev = .enter k v) :
+    s.file k = .closed (enc v) ∧ partialWriter s.base k = false ∧ (ev = .cget k v → obs = some (.complete (enc v))) :=
+  chunked_no_partial_read' h hs hev
+
+/-- the writer's intermediate steps are private: a chunk / close step changes only the file of the key the stepping caller is
+populating, the entry is not cached then, and no other caller holds that entry open or writes / removes it -/
+theorem chunk_steps_exclusive {enc : Nat → List Nat} {idx : Nat → Nat} {progs : List (List (List Instr))}
+    {s s' : DSt} {i : Nat} {a : DAct} {ev : DEv} (h : DReachable enc idx progs s) (ha : a ≠ .base)
+    (hs : dstep enc idx s i a = some (ev, s')) :
+    ∃ k, (ev = .close k ∨ ∃ b, ev = .chunk k b) ∧ s'.base = s.base ∧ (∀ k', k' ≠ k → s'.file k' = s.file k') ∧
+      s.base.cache k = none ∧
+      ∀ j d, s.base.cs[j]? = some d → j ≠ i → k ∉ d.reads ∧ d.pc.writeKey ≠ some k := chunk_steps_exclusive' h ha hs
+
+/-- non-vacuity, and what the locks are for: after the writer's open-truncate the file is zero-length — a bare
+`DiskCacher.get_set` would REMOVE it under the writer (`diskRead … = .zeroLength`) — but the reader's only step is a refused
+read lock; it stays refused between the chunks and the close, and afterwards the reader finds the complete content.  A wrong /
+early chunk, an early close and an early return are not steps of a successful writer (same schedule replayed on the real code) -/
+theorem chunked_write_example :
+    (drun chunkEnc id (dinit chunkProgs) chunkSched1).1.file 0 = .opened [] ∧
+    diskRead ((drun chunkEnc id (dinit chunkProgs) chunkSched1).1.file 0) = .zeroLength ∧
+    (drun chunkEnc id (dinit chunkProgs) chunkSched1).2.getLast? = some (1, .base .spin none) ∧
+    ((drun chunkEnc id (dinit chunkProgs) chunkSched2).2.filter (fun e => e.1 == 1)).map (·.2) =
+      [.base .nextSeg none, .base .begin none, .base .spin none, .base .spin none, .base .spin none, .base .spin none,
+       .base (.acqR 0) none, .base (.contains 0 true) none, .base (.cget 0 7) (some (.complete [1, 2]))] ∧
+    (dstep chunkEnc id (drun chunkEnc id (dinit chunkProgs) chunkSched1).1 0 (.chunk 2)).isNone = true ∧
+    (dstep chunkEnc id (drun chunkEnc id (dinit chunkProgs) chunkSched1).1 0 .close).isNone = true ∧
+    (dstep chunkEnc id (drun chunkEnc id (dinit chunkProgs) chunkSched1).1 0 .base).isNone = true := chunked_write_example'
+
+/-! #### the download semaphore as an interleaving system
+
+Any number of callers, each a sequence of `OpenmlSource.read`s (`SRead`: cached at the first check / at the re-check after
+`acquire()` / the download or its consumer raises), one atomic step per semaphore operation or check; `SReachable permits progs s`
+= reached by any schedule. -/
+
+/-- never more than `permits` callers hold a permit, hence never more than `permits` simultaneous downloads: free permits +
+holders = permits in every reachable state -/
+theorem semaphore_never_exceeds_permits {permits : Nat} {progs : List (List SRead)} {s : SSt}
+    (h : SReachable permits progs s) :
+    s.free + s.holders = permits ∧ s.downloads ≤ s.holders ∧ s.holders ≤ permits := semaphore_bound' h
+
+/-- every acquire is released on every path (peer cached it meanwhile, download finished, download or consumer raised): when all
+callers are done all permits are back -/
+theorem semaphore_all_released {permits : Nat} {progs : List (List SRead)} {s : SSt}
+    (h : SReachable permits progs s) (ht : s.allTerminal = true) : s.free = permits := semaphore_all_released' h ht
+
+/-- with at least one permit nobody waits forever: while somebody is unfinished, some caller has a step other than waiting in `acquire()` -/
+theorem semaphore_deadlock_free {permits : Nat} {progs : List (List SRead)} {s : SSt} (hp : 1 ≤ permits)
+    (h : SReachable permits progs s) (hnt : s.allTerminal = false) :
+    ∃ i ev s', sstep s i = some (ev, s') ∧ ev ≠ .wait := semaphore_deadlock_free' hp h hnt
+
+/-- … and every such step decreases the variant, waiting changes nothing: under weak fairness every read ends -/
+theorem semaphore_progress_bounded {s s' : SSt} {i : Nat} {ev : SEv} (hs : sstep s i = some (ev, s')) :
+    (ev ≠ .wait → s'.measure < s.measure) ∧ (ev = .wait → s' = s) := semaphore_progress' hs
+
+/-- three callers on one permit (cached / peer-cached / raising reads): one gets in, two wait, all finish, the permit is back -/
+example : (srun (sinit 1 semProgs) [0, 1, 2, 0, 1, 2, 0, 0, 0, 1, 1, 1, 2, 2, 2, 2, 0, 0, 0, 0]).1.free = 1 ∧
+    (srun (sinit 1 semProgs) [0, 1, 2, 0, 1, 2, 0, 0, 0, 1, 1, 1, 2, 2, 2, 2, 0, 0, 0, 0]).1.allTerminal = true ∧
+    (srun (sinit 1 semProgs) [0, 1, 2, 0, 1, 2]).2 = [(0, .request), (1, .request), (2, .request), (0, .acquire), (1, .wait), (2, .wait)] ∧
+    (srun (sinit 1 semProgs) [0, 1, 2, 0, 1, 2]).1.holders = 1 := semaphore_example'
+
+/-- `1 ≤ permits` is necessary: with a zero-permit semaphore an uncached read waits forever -/
+theorem semaphore_zero_permits_counterexample :
+    (srun (sinit 0 [[⟨false, false, false⟩]]) [0, 0, 0]).2 = [(0, .request), (0, .wait), (0, .wait)] ∧
+    (srun (sinit 0 [[⟨false, false, false⟩]]) [0, 0, 0]).1.allTerminal = false := semaphore_zero_permits_counterexample'
+
+
+/-- translator obligation (regenerated from the source on every run): the semaphore CobaMultiprocessor installs has the
+permits the model assumes and at least one (so `semaphore_deadlock_free` applies), every slot number a `digestBytes`-byte
+digest can take lies inside the shared lock table, and both equal the model's constants -/
+theorem generated_consts_match :
+    Generated.openmlPermits = modelPermits ∧ Generated.digestBytes = modelDigestBytes ∧ Generated.lockTableSize = modelSlots ∧
+    256 ^ Generated.digestBytes ≤ Generated.lockTableSize ∧ 1 ≤ Generated.openmlPermits := generated_consts_match'
+
+/-- … hence for the library's own semaphore: never more than its 3 permits are held, and nobody waits forever -/
+theorem semaphore_library_instance {progs : List (List SRead)} {s : SSt} (h : SReachable Generated.openmlPermits progs s) :
+    s.holders ≤ 3 ∧ (s.allTerminal = false → ∃ i ev s', sstep s i = some (ev, s') ∧ ev ≠ .wait) :=
+  ⟨(semaphore_bound' h).2.2, semaphore_deadlock_free' generated_consts_match'.2.2.2.2 h⟩
+
 end Coba.C19
